@@ -422,7 +422,11 @@ func (g *Gen) NextTx(v *View) *Op {
 		name := fmt.Sprintf("n%d", g.Rng.Intn(100))
 		url := fmt.Sprintf("u%d", g.Rng.Intn(100))
 		if invalid == "kind" {
-			name = string(make([]byte, 2049))
+			if g.Rng.Intn(2) == 0 {
+				name = string(make([]byte, 2049))
+			} else {
+				url = string(make([]byte, 2049))
+			}
 			tag = "setdoc:long"
 		}
 		tx = web3.NewTrxSetDoc(g.KR.Addr(from), nonce, gas, price, name, url)
